@@ -318,6 +318,31 @@ FC2 == {[ast |-> n, fl |-> fl, sp |-> 0] : n \in FC2Pats,
                   n \in {VCls(FALSE, x) : x \in FC2E1}}
 
 (***************************************************************************)
+(* F14: what distinguishes the UTF-16 / UCS-2 decoders: supplementary      *)
+(* characters consumed and given back by loops in both directions,         *)
+(* captured, back-referenced (also case-insensitively), next to \b, in     *)
+(* classes and ranges, inside look-behind.                                 *)
+(* F14L: the same with the legacy i flag and cased supplementary letters   *)
+(* (compared between the entry points only: the standard works on UTF-16   *)
+(* code units there).                                                      *)
+(***************************************************************************)
+F14Atoms == { Dot, Chr(cGrin), Cls(FALSE, <<IC(cGrin), IC(ca)>>), Cls(TRUE, <<IC(ca)>>), Cls(TRUE, <<IC(cGrin)>>),
+              Esc("W"), Chr(cDeseretL), Cls(FALSE, <<IR(ca, cGrin)>>), Cls(FALSE, <<IR(cDeseretU, cDeseretL)>>) }
+F14Q == { <<0, -1, TRUE>>, <<1, -1, TRUE>>, <<1, -1, FALSE>>, <<0, 1, TRUE>>, <<2, 2, TRUE>>, <<1, 2, FALSE>> }
+F14Shapes(at, q) ==
+  { Quant(at, q), Cat(<<Quant(at, q), Dot>>), Cat(<<Bol, Quant(at, q), Grp(Dot), Eol>>),
+    Cat(<<Look(Cat(<<at, Grp(Quant(Dot, q))>>), TRUE, FALSE), A>>), Cat(<<Look(Cat(<<Grp(Quant(Dot, q)), at>>), TRUE, TRUE), Eol>>),
+    Cat(<<Grp(Quant(at, q)), BRef(1)>>), Cat(<<Look(Cat(<<BRef(1), Grp(at)>>), TRUE, FALSE), Eol>>),
+    Cat(<<Quant(at, q), Wb(FALSE)>>), Cat(<<Wb(TRUE), Quant(at, q), A>>) }
+F14Pats == UNION {F14Shapes(at, q) : at \in F14Atoms, q \in F14Q}
+F14 == UNION {With(F14Pats, fl) : fl \in {NoFlags, UFlags, Flags(TRUE, FALSE, FALSE, TRUE, FALSE)}}
+F14Hay == [alpha |-> {ca, cGrin, cDeseretL, cDeseretU, cEacute}, maxlen |-> 3]
+F14LPats == { Cat(<<Grp(Dot), BRef(1)>>), Cat(<<Look(Cat(<<BRef(1), Grp(Dot)>>), TRUE, FALSE), Eol>>), Chr(cDeseretL), Chr(cDeseretU),
+              Cls(FALSE, <<IC(cDeseretL)>>), Cls(TRUE, <<IC(cDeseretU)>>), Cat(<<Grp(Plus(Dot)), BRef(1)>>), Plus(Chr(cDeseretL)),
+              Cls(FALSE, <<IR(cDeseretU, cDeseretU)>>) }
+F14L == With(F14LPats, Flags(TRUE, FALSE, FALSE, FALSE, FALSE))
+
+(***************************************************************************)
 (* Registry                                                                *)
 (***************************************************************************)
 HaysOf(spec) == StringsUpTo(spec.alpha, spec.maxlen)
@@ -338,6 +363,8 @@ FamilyCases(name) ==
     [] name = "F9" -> F9
     [] name = "F1b" -> AttachHays(F1b, F1bHay)
     [] name = "F13" -> AttachHays(F13, F13Hay)
+    [] name = "F14" -> AttachHays(F14, F14Hay)
+    [] name = "F14L" -> AttachHays(F14L, F14Hay)
     [] name = "FC1" -> AttachHaysSp(FC1, FCHay)
     [] name = "FC2" -> AttachHaysSp(FC2, FCHay)
 =============================================================================
